@@ -1,7 +1,7 @@
 (* model side of the C05 correspondence: same line protocol as harness/forms.cpp modes B, W, O.
    Strings are comma separated hex UTF-16 code units (empty string = empty field); the fields of an
    event/node/write token are separated by '|', tokens by ' '.
-     <id> B <events>      events: S|qname|an|av|...  E  C|chars  I|ignorable-ws  M|comment  P|target|data
+     <id> B <events>      events: S|qname|an|av|...  A|qname|an|av|atype|... (declared types; output gets ' # value=index|- ...')  E  C|chars  I|ignorable-ws  M|comment  P|target|data
      <id> W <dom tokens>  S|qname|an|av|...  E  T|text  D|cdata  R|name ... r  M|comment  P|target|data  Y|name|entities
      <id> O <bs> <writes> w|units  c|unit  n|units  f
    Output:  <id> <depth>:<kind>:<index>:<name>:<value> ...   (document order; kinds e a t d r c p; the document type is not linked)   or  <id> ERR
@@ -16,6 +16,14 @@ let rec attrs_of = function
   | a :: v :: r -> (str_of_field a, str_of_field v) :: attrs_of r
   | [] -> []
   | _ -> failwith "odd attribute fields"
+
+(* typed start tag: A|qname|an|av|atype|...  (S|... = every attribute of type CDATA) *)
+let rec tattrs_of = function
+  | a :: v :: ty :: r -> ((str_of_field a, str_of_field v), str_of_field ty) :: tattrs_of r
+  | [] -> []
+  | _ -> failwith "attribute fields of an A token are not triples"
+
+let cdata_type : n list = str_of_field "43,44,41,54,41"
 
 let event_of_token (t : string) : sax_event =
   match String.split_on_char '|' t with
@@ -90,9 +98,29 @@ let () =
     match split_ws line with
     | id :: "B" :: toks ->
         (try
-          (match build_sax (List.map event_of_token toks) with
-           | Some d -> Printf.printf "%s %s\n" id (String.concat " " (List.rev (List.fold_left (dump_inode 0) [] d)))
-           | None -> Printf.printf "%s ERR\n" id)
+          let typed = List.exists (fun t -> String.length t > 1 && t.[0] = 'A' && t.[1] = '|') toks in
+          if not typed then
+            (match build_sax (List.map event_of_token toks) with
+             | Some d -> Printf.printf "%s %s\n" id (String.concat " " (List.rev (List.fold_left (dump_inode 0) [] d)))
+             | None -> Printf.printf "%s ERR\n" id)
+          else begin
+            (* with typed start tags: the tree, then getElementById of every attribute value of the A tokens
+               (first appearance order):  # value=index|-  *)
+            let tev (t : string) : tevent =
+              match String.split_on_char '|' t with
+              | "A" :: q :: r -> TStart (str_of_field q, tattrs_of r)
+              | "S" :: q :: r -> TStart (str_of_field q, List.map (fun a -> (a, cdata_type)) (attrs_of r))
+              | _ -> TEv (event_of_token t) in
+            let cands = ref [] in
+            List.iter (fun t -> match String.split_on_char '|' t with
+              | "A" :: _ :: r -> List.iter (fun ((_, v), _) -> if not (List.mem v !cands) then cands := v :: !cands) (tattrs_of r)
+              | _ -> ()) toks;
+            match build_ids (List.map tev toks) with
+            | Some (d, tab) ->
+                let obs = List.map (fun v -> field_of_str v ^ "=" ^ (match id_lookup tab v with Some i -> string_of_int (int_of_n i) | None -> "-")) (List.rev !cands) in
+                Printf.printf "%s %s %s\n" id (String.concat " " (List.rev (List.fold_left (dump_inode 0) [] d))) (String.concat " " ("#" :: obs))
+            | None -> Printf.printf "%s ERR\n" id
+          end
         with Failure m -> Printf.printf "%s BAD %s\n" id m)
     | id :: "W" :: toks ->
         (try
